@@ -35,13 +35,21 @@ pub enum Cond {
 #[derive(Default)]
 pub struct Engine {
     pub terms: Vec<Term>,        // index 0 unused
+    pub meta: Vec<Meta>,         // per term: interval + grain
     pub path: Vec<(Cond, bool)>, // branch log
     pub vars: Vec<P>,            // concrete model for Var(k)
+    pub doms: Vec<(f64, f64, i32)>, // per var: lo, hi, shift (value = k * 2^-shift)
+    pub concretized: u32,
     pub active: bool,
 }
 
+/// value is an integer multiple of 2^-grain (grain = i32::MAX: unknown/inexact) and lies in [lo, hi]
+#[derive(Clone, Copy, Debug)]
+pub struct Meta { pub lo: f64, pub hi: f64, pub grain: i32, pub exact: bool }
+pub const INEXACT: i32 = i32::MAX;
+
 thread_local! {
-    pub static ENGINE: RefCell<Engine> = RefCell::new(Engine { terms: vec![Term::Const(0)], ..Default::default() });
+    pub static ENGINE: RefCell<Engine> = RefCell::new(Engine { terms: vec![Term::Const(0)], meta: vec![Meta { lo: 0.0, hi: 0.0, grain: 0, exact: true }], ..Default::default() });
 }
 
 #[derive(Clone, Copy)]
@@ -62,10 +70,59 @@ pub mod consts {
     pub const PI: Sx = super::lit(core::f32::consts::PI);
 }
 
+fn const_meta(bits: u32) -> Meta {
+    let v = P::from_bits(bits);
+    if !v.is_finite() { return Meta { lo: f64::NEG_INFINITY, hi: f64::INFINITY, grain: INEXACT, exact: false }; }
+    if v == 0.0 { return Meta { lo: 0.0, hi: 0.0, grain: 0, exact: true }; }
+    let exp = ((bits >> 23) & 0xff) as i32;
+    let man = bits & 0x7fffff;
+    let (m, e2) = if exp == 0 { (man, -149) } else { (man | 0x800000, exp - 150) };
+    let tz = m.trailing_zeros() as i32;
+    // v = (m >> tz) * 2^(e2 + tz): grain = -(e2+tz) if negative exponent else 0
+    let g = -(e2 + tz);
+    Meta { lo: v as f64, hi: v as f64, grain: if g > 0 { g } else { 0 }, exact: true }
+}
+fn fits(lo: f64, hi: f64, grain: i32) -> bool {
+    if grain == INEXACT { return false; }
+    let m = lo.abs().max(hi.abs());
+    if m == 0.0 { return true; }
+    // need m * 2^grain <= 2^24
+    m * (2f64).powi(grain) <= 16777216.0
+}
+fn meta_of(e: &Engine, t: &Term) -> Meta {
+    let g = |i: &u32| e.meta[*i as usize];
+    let bad = Meta { lo: f64::NEG_INFINITY, hi: f64::INFINITY, grain: INEXACT, exact: false };
+    let fin = |lo: f64, hi: f64, grain: i32, parents_exact: bool| { let ex = parents_exact && fits(lo, hi, grain); Meta { lo, hi, grain: if ex { grain } else { INEXACT }, exact: ex } };
+    match t {
+        Term::Var(k) => { let (lo, hi, sh) = e.doms[*k as usize]; Meta { lo, hi, grain: sh.max(0), exact: true } }
+        Term::Const(b) => const_meta(*b),
+        Term::Add(a, b) => { let (x, y) = (g(a), g(b)); fin(x.lo + y.lo, x.hi + y.hi, x.grain.max(y.grain), x.exact && y.exact) }
+        Term::Sub(a, b) => { let (x, y) = (g(a), g(b)); fin(x.lo - y.hi, x.hi - y.lo, x.grain.max(y.grain), x.exact && y.exact) }
+        Term::Mul(a, b) => { let (x, y) = (g(a), g(b)); let c = [x.lo * y.lo, x.lo * y.hi, x.hi * y.lo, x.hi * y.hi];
+            let lo = c.iter().cloned().fold(f64::INFINITY, f64::min); let hi = c.iter().cloned().fold(f64::NEG_INFINITY, f64::max);
+            let gr = if x.grain == INEXACT || y.grain == INEXACT { INEXACT } else { x.grain + y.grain };
+            fin(lo, hi, gr, x.exact && y.exact) }
+        Term::Div(a, b) => { let (x, y) = (g(a), g(b));
+            // exact only when dividing by a concrete power of two
+            if y.lo == y.hi && y.lo != 0.0 && y.exact { let d = y.lo.abs(); let l2 = d.log2(); if l2.fract() == 0.0 && x.grain != INEXACT {
+                let (lo, hi) = if y.lo > 0.0 { (x.lo / y.lo, x.hi / y.lo) } else { (x.hi / y.lo, x.lo / y.lo) };
+                return fin(lo, hi, (x.grain + l2 as i32).max(0), x.exact); } }
+            bad }
+        Term::Neg(a) => { let x = g(a); Meta { lo: -x.hi, hi: -x.lo, ..x } }
+        Term::Abs(a) => { let x = g(a); let hi = x.lo.abs().max(x.hi.abs()); let lo = if x.lo <= 0.0 && x.hi >= 0.0 { 0.0 } else { x.lo.abs().min(x.hi.abs()) }; Meta { lo, hi, ..x } }
+        Term::Min(a, b) => { let (x, y) = (g(a), g(b)); Meta { lo: x.lo.min(y.lo), hi: x.hi.min(y.hi), grain: if x.exact && y.exact { x.grain.max(y.grain) } else { INEXACT }, exact: x.exact && y.exact } }
+        Term::Max(a, b) => { let (x, y) = (g(a), g(b)); Meta { lo: x.lo.max(y.lo), hi: x.hi.max(y.hi), grain: if x.exact && y.exact { x.grain.max(y.grain) } else { INEXACT }, exact: x.exact && y.exact } }
+        Term::Floor(a) => { let x = g(a); Meta { lo: x.lo.floor(), hi: x.hi.floor(), grain: if x.exact { 0 } else { INEXACT }, exact: x.exact && fits(x.lo.floor(), x.hi.floor(), 0) } }
+        Term::Ceil(a) => { let x = g(a); Meta { lo: x.lo.ceil(), hi: x.hi.ceil(), grain: if x.exact { 0 } else { INEXACT }, exact: x.exact && fits(x.lo.ceil(), x.hi.ceil(), 0) } }
+        Term::App(..) => bad,
+    }
+}
 fn mk(t: Term) -> u32 {
     ENGINE.with(|e| {
         let mut e = e.borrow_mut();
+        let m = meta_of(&e, &t);
         e.terms.push(t);
+        e.meta.push(m);
         (e.terms.len() - 1) as u32
     })
 }
@@ -100,9 +157,14 @@ impl Sx {
     }
     /// fresh symbolic input with concrete shadow value v
     pub fn var(v: P) -> Sx {
+        Sx::var_dom(v, -512.0, 512.0, 1)
+    }
+    /// fresh symbolic input: value = k * 2^-shift with lo <= value <= hi; v is the concrete shadow value
+    pub fn var_dom(v: P, lo: f64, hi: f64, shift: i32) -> Sx {
         let k = ENGINE.with(|e| {
             let mut e = e.borrow_mut();
             e.vars.push(v);
+            e.doms.push((lo, hi, shift));
             (e.vars.len() - 1) as u32
         });
         Sx { v, t: mk(Term::Var(k)) }
@@ -243,6 +305,7 @@ impl Sx {
         if self.t != 0 {
             let c = mk(Term::Const(self.v.to_bits()));
             branch(Cond::Eq(self.t, c), true);
+            ENGINE.with(|e| e.borrow_mut().concretized += 1);
         }
         self.v
     }
@@ -535,6 +598,35 @@ pub fn smt_prelude_and_defs() -> String {
             };
             s.push_str(&format!("(assert {})\n", if *taken { f } else { format!("(not {f})") }));
         }
+        s
+    })
+}
+
+pub fn reset() {
+    ENGINE.with(|e| { let mut e = e.borrow_mut(); e.terms.truncate(1); e.meta.truncate(1); e.path.clear(); e.vars.clear(); e.doms.clear(); e.concretized = 0; });
+}
+/// machine-readable dump of the run: one line per item
+pub fn dump() -> String {
+    ENGINE.with(|e| {
+        let e = e.borrow();
+        let mut s = String::new();
+        for (k, (lo, hi, sh)) in e.doms.iter().enumerate() { s.push_str(&format!("VAR {k} {lo} {hi} {sh} {}\n", e.vars[k])); }
+        for (i, t) in e.terms.iter().enumerate().skip(1) {
+            let m = e.meta[i];
+            let d = match t {
+                Term::Var(k) => format!("var {k}"), Term::Const(b) => format!("const {}", b),
+                Term::Add(a, b) => format!("add {a} {b}"), Term::Sub(a, b) => format!("sub {a} {b}"), Term::Mul(a, b) => format!("mul {a} {b}"),
+                Term::Div(a, b) => format!("div {a} {b}"), Term::Neg(a) => format!("neg {a}"), Term::Abs(a) => format!("abs {a}"),
+                Term::Min(a, b) => format!("min {a} {b}"), Term::Max(a, b) => format!("max {a} {b}"), Term::Floor(a) => format!("floor {a}"),
+                Term::Ceil(a) => format!("ceil {a}"), Term::App(n, a) => format!("app {n} {}", a.iter().map(|x| x.to_string()).collect::<Vec<_>>().join(" ")),
+            };
+            s.push_str(&format!("TERM {i} {} {d}\n", if m.exact { "E" } else { "I" }));
+        }
+        for (c, taken) in &e.path {
+            let (op, a, b) = match c { Cond::Lt(a, b) => ("lt", a, b), Cond::Le(a, b) => ("le", a, b), Cond::Eq(a, b) => ("eq", a, b) };
+            s.push_str(&format!("PATH {} {op} {a} {b}\n", if *taken { 1 } else { 0 }));
+        }
+        s.push_str(&format!("CONCRETIZED {}\n", e.concretized));
         s
     })
 }
